@@ -263,18 +263,26 @@ impl<F: Write + Seek> Allocator<F> {
 
     /// Adds a new sector to the FAT chain at the end of the file, and updates
     /// the FAT and DIFAT accordingly.
+    ///
+    /// Every change is written to the underlying file first; the in-memory
+    /// tables are only updated once all of those writes have succeeded.  If
+    /// one of them fails, nothing in memory has changed and the operation can
+    /// simply be tried again.
     fn append_fat_sector(&mut self) -> io::Result<()> {
         // Add a new FAT sector to the end of the file.
         let new_fat_sector_id = self.fat.len() as u32;
         self.sectors.init_sector(new_fat_sector_id, SectorInit::Fat)?;
 
-        // Record this new FAT sector in the DIFAT and in the FAT itself.
+        // Record this new FAT sector in the FAT itself.
         let difat_index = self.difat.len();
-        self.difat.push(new_fat_sector_id);
-        self.set_fat(new_fat_sector_id, consts::FAT_SECTOR)?;
-        debug_assert_eq!(self.fat.len(), new_fat_sector_id as usize + 1);
+        self.write_fat_cell(
+            new_fat_sector_id,
+            consts::FAT_SECTOR,
+            Some(new_fat_sector_id),
+        )?;
 
         // Write DIFAT changes to file.
+        let mut new_difat_sector_id = None;
         if difat_index < consts::NUM_DIFAT_ENTRIES_IN_HEADER {
             // This DIFAT entry goes in the file header.
             let offset = 76 + 4 * difat_index as u64;
@@ -287,28 +295,42 @@ impl<F: Write + Seek> Allocator<F> {
                 - consts::NUM_DIFAT_ENTRIES_IN_HEADER)
                 / difat_entries_per_sector;
             if difat_sector_index >= self.difat_sector_ids.len() {
-                // Add a new DIFAT sector to the end of the file.
-                let new_difat_sector_id = self.fat.len() as u32;
+                // Add a new DIFAT sector to the end of the file, right after
+                // the new FAT sector.
+                let difat_sector_id = new_fat_sector_id + 1;
                 self.sectors
-                    .init_sector(new_difat_sector_id, SectorInit::Difat)?;
+                    .init_sector(difat_sector_id, SectorInit::Difat)?;
                 // Record this new DIFAT sector in the FAT.
-                self.set_fat(new_difat_sector_id, consts::DIFAT_SECTOR)?;
+                self.write_fat_cell(
+                    difat_sector_id,
+                    consts::DIFAT_SECTOR,
+                    Some(new_fat_sector_id),
+                )?;
                 // Add this sector to the end of the DIFAT chain.
                 if let Some(&last_sector_id) = self.difat_sector_ids.last() {
                     let offset = self.sector_len() as u64 - 4;
                     let mut sector = self
                         .sectors
                         .seek_within_sector(last_sector_id, offset)?;
-                    sector.write_le_u32(new_difat_sector_id)?;
+                    sector.write_le_u32(difat_sector_id)?;
                 }
-                self.difat_sector_ids.push(new_difat_sector_id);
                 // Update DIFAT chain fields in header.
+                let first_difat_sector_id = self
+                    .difat_sector_ids
+                    .first()
+                    .copied()
+                    .unwrap_or(difat_sector_id);
                 let mut header = self.sectors.seek_within_header(68)?;
-                header.write_le_u32(self.difat_sector_ids[0])?;
-                header.write_le_u32(self.difat_sector_ids.len() as u32)?;
+                header.write_le_u32(first_difat_sector_id)?;
+                header
+                    .write_le_u32(self.difat_sector_ids.len() as u32 + 1)?;
+                new_difat_sector_id = Some(difat_sector_id);
             }
             // Write the new entry into the DIFAT sector.
-            let difat_sector_id = self.difat_sector_ids[difat_sector_index];
+            let difat_sector_id = match new_difat_sector_id {
+                Some(difat_sector_id) => difat_sector_id,
+                None => self.difat_sector_ids[difat_sector_index],
+            };
             let index_within_difat_sector = difat_index
                 - consts::NUM_DIFAT_ENTRIES_IN_HEADER
                 - difat_sector_index * difat_entries_per_sector;
@@ -321,7 +343,49 @@ impl<F: Write + Seek> Allocator<F> {
 
         // Update length of FAT chain in header.
         let mut header = self.sectors.seek_within_header(44)?;
-        header.write_le_u32(self.difat.len() as u32)?;
+        header.write_le_u32(difat_index as u32 + 1)?;
+
+        // Everything is in the file; now update the in-memory tables.
+        self.difat.push(new_fat_sector_id);
+        self.fat.push(consts::FAT_SECTOR);
+        if let Some(difat_sector_id) = new_difat_sector_id {
+            self.fat.push(consts::DIFAT_SECTOR);
+            self.difat_sector_ids.push(difat_sector_id);
+        }
+        Ok(())
+    }
+
+    /// Writes `value` into the FAT entry for sector `index` in the underlying
+    /// file, without touching `self.fat`.  If `pending_fat_sector` is given,
+    /// it is the ID of a FAT sector that is about to become the next entry of
+    /// the DIFAT.
+    fn write_fat_cell(
+        &mut self,
+        index: u32,
+        value: u32,
+        pending_fat_sector: Option<u32>,
+    ) -> io::Result<()> {
+        let index = index as usize;
+        let fat_entries_per_sector =
+            self.sectors.sector_len() / size_of::<u32>();
+        let difat_index = index / fat_entries_per_sector;
+        let fat_sector_id = match self.difat.get(difat_index) {
+            Some(&fat_sector_id) => fat_sector_id,
+            None => match pending_fat_sector {
+                Some(fat_sector_id) if difat_index == self.difat.len() => {
+                    fat_sector_id
+                }
+                _ => malformed!(
+                    "sector {} is not covered by any FAT sector",
+                    index
+                ),
+            },
+        };
+        let offset_within_sector = 4 * (index % fat_entries_per_sector) as u64;
+        let mut sector = self
+            .sectors
+            .seek_within_sector(fat_sector_id, offset_within_sector)?;
+        sector.write_le_u32(value)?;
         Ok(())
     }
 
@@ -359,23 +423,9 @@ impl<F: Write + Seek> Allocator<F> {
     /// Sets `self.fat[index] = value`, and also writes that change to the
     /// underlying file.  The `index` must be <= `self.fat.len()`.
     fn set_fat(&mut self, index: u32, value: u32) -> io::Result<()> {
+        debug_assert!(index as usize <= self.fat.len());
+        self.write_fat_cell(index, value, None)?;
         let index = index as usize;
-        debug_assert!(index <= self.fat.len());
-        let fat_entries_per_sector =
-            self.sectors.sector_len() / size_of::<u32>();
-        let fat_sector_id =
-            match self.difat.get(index / fat_entries_per_sector) {
-                Some(&fat_sector_id) => fat_sector_id,
-                None => malformed!(
-                    "sector {} is not covered by any FAT sector",
-                    index
-                ),
-            };
-        let offset_within_sector = 4 * (index % fat_entries_per_sector) as u64;
-        let mut sector = self
-            .sectors
-            .seek_within_sector(fat_sector_id, offset_within_sector)?;
-        sector.write_le_u32(value)?;
         if index == self.fat.len() {
             self.fat.push(value);
         } else {
